@@ -253,6 +253,16 @@ example : ((runOps (fun t => SpkiTable.init (!t)) (demoHist.take 4)).1 false).ge
     ((runOps (fun t => SpkiTable.init (!t)) demoHist).1 true).list = [k2] := by
   refine ⟨by decide +kernel, by decide +kernel, by decide +kernel⟩
 
+-- non-vacuity of the single-operation theorems: a concrete table meeting their hypotheses
+-- (invariant, a stored record, an unknown record, two sources under one (AS, SKI))
+def demoT : SpkiTable := (runOps (fun t => SpkiTable.init (!t)) (demoHist.take 4)).1 false
+
+example : SInv demoT ∧ k1 ∈ demoT.list ∧ (⟨2, 0, 0, 1⟩ : SpkiRec) ∉ demoT.list ∧ demoT.list.length = 3 ∧
+    demoT.ht.count = 3 ∧ (demoT.add k1).2 = .duplicate ∧ (demoT.remove ⟨2, 0, 0, 1⟩).2 = .notFound ∧
+    ((demoT.srcRemove 1).1.list = [k2]) ∧ (copyExcept demoT (SpkiTable.init false) 2).1.list = [k1, k3] :=
+  ⟨(history_refines (demoHist.take 4)).2.1 false, by decide +kernel, by decide +kernel, by decide +kernel,
+   by decide +kernel, by decide +kernel, by decide +kernel, by decide +kernel, by decide +kernel⟩
+
 /-! ## 3. the callback stream is an exact change log -/
 
 /-- **spki_log_replays**: after every history of additions, removals, removals by source and full
